@@ -257,7 +257,7 @@ def run_behaviour(ck, cases, exe_model, label):
         p = f[2] if len(f) == 3 else "null"
         progs.append("full\t" + esc(p))
         progs.append("full,static-full\t" + esc(p))
-    rc, iout, err = core.run_sharded(core.harness_bin("nkeval"), [], progs)
+    rc, iout, err = c03.run_chunked(core.harness_bin("nkeval"), [], progs)
     if rc:
         ck.obligation("impl-run:nkeval:" + label, "internal", False, "rc=%s %s" % (rc, err))
         return
